@@ -291,7 +291,34 @@ def gen_easy(E):
         e = match_close(t, j)
         body = [x.text for x in t[j:e + 1]]
         # retry: the loop mentions ErrorKind::Interrupted and `continue`
-        retry = ("Interrupted" in body) and ("continue" in body)
+        # retry: the arm for ErrorKind::Interrupted is `continue`, or it is empty (`{}` / `()`) and the `match` it
+        # belongs to is the last statement of the `loop` body, so falling out of it starts the next iteration
+        retry = False
+        if "Interrupted" in body:
+            bt = t[j:e + 1]
+            ki = [x.text for x in bt].index("Interrupted")
+            ka = ki
+            while bt[ka].text != "=>":
+                ka += 1
+            nxt = [x.text for x in bt[ka + 1:ka + 4]]
+            if nxt[0] == "continue":
+                retry = True
+            elif nxt[:2] in (["{", "}"], ["(", ")"]):
+                # enclosing `match … {` = nearest unclosed `{` before the arm; enclosing loop likewise before it
+                stack = []
+                for q in range(ki):
+                    if bt[q].text == "{":
+                        stack.append(q)
+                    elif bt[q].text == "}":
+                        stack.pop()
+                m_open = stack[-1]
+                l_open = stack[-2]
+                m_close = match_close(bt, m_open)
+                q = m_close + 1
+                while bt[q].text == ";":
+                    q += 1
+                is_loop = any(bt[z].text == "loop" for z in range(max(0, l_open - 1), l_open))
+                retry = is_loop and q == match_close(bt, l_open)
         k = find_seq(t[j:e + 1], ["invariant!", "(", "len", "<=", "buffer", ".", "len", "(", ")", ")"])
         has_inv = k >= 0
     except Exception as ex:
